@@ -228,5 +228,26 @@ class OpAssignUnit:
         from units.c05_ops import OpsUnit
         return OpsUnit.witness(self, repo, o, res)
 
+    def cli_replay(self, repo, o, vals):
+        """operands decoded from kani's bytes -> `x op= v` on a variable (named form) / on a list element (pointer form), real CLI"""
+        from vlib import numreplay as N, cli
+        parts = o.oid.split(".")                      # C08.opassign.<named|pointer>.<op>
+        form, op = parts[2], parts[3]
+        k = "int" if op in ("add", "sub", "mul") else "byte"
+        if len(vals) < 2:
+            return {"replayed_on_real_cli": False, "why": "unexpected number of symbolic inputs"}
+        a, b = N.decode(k, vals[0]), N.decode(k, vals[1])
+        expect = N.spec_binop(op, k, a, k, b)
+        la, lb = N.literal(k, a), N.literal(k, b)
+        if form == "named":
+            prog = f"x = {la}\nv = {lb}\nx {N.SYMS[op]}= v\nprint typeof x\nprint x\n"
+        else:
+            ty = "int" if k == "int" else "byte"
+            prog = f"l: [{ty}...] = [{la}]\nv = {lb}\nl[0] {N.SYMS[op]}= v\nr = l[0]\nprint typeof r\nprint r\n"
+        run = cli.run_program(repo, prog)
+        rep, actual = N.judge(expect, run)
+        return {"replayed_on_real_cli": True, "reproduced_on_real_cli": rep, "operands": {"x": f"{k} {a}", "v": f"{k} {b}"},
+                "expected_by_the_property": "a failure (no value)" if expect[0] == "fail" else f"{expect[1]} {expect[2]!r}", "actual": actual, **run}
+
 
 UNITS = [U_SET, OpAssignUnit()]
